@@ -136,8 +136,15 @@ def run_program(job):
     prog = job['prog']
     text = job.get('text') or render.render_prog(prog, macros_last=job.get('macros_last', False))
     cases = []
-    pout, circ = outcome(lambda: parse_prog(prog, text))
-    if not job.get('text'):      # a witness given as text has no model program to compare the parse with
+    if job.get('route') == 'builder':
+        # programs the text grammar cannot express (AstEnum openers with `any`) are built through the S-expression API
+        from jaqalpaq.core.circuitbuilder import build
+        sx = render.sexpr_prog(prog)
+        text = 'builder: ' + repr(sx)
+        pout, circ = outcome(lambda: build(sx, inject_pulses=gates.select([n['v'] for n in prog['natives']]) if prog['natives'] else None))
+    else:
+        pout, circ = outcome(lambda: parse_prog(prog, text))
+    if not job.get('text') and job.get('route') != 'builder':      # a witness given as text has no model program to compare the parse with
         cases.append({'id': job['id'] + '/parse', 'site': 'parse', 'inp': compress(prog), 'ovr': [], 'out': pout,
                       'text': text, 'prep': 'prepare_all', 'meas': 'measure_all'})
     if circ is None:
@@ -278,10 +285,11 @@ def run_property(prop, tier, configs, sites_fn, owned, nontrivial, rule, module=
             progs = rng.sample(progs, budget)
             rep.cov['exhaustive'] = False
         for n, p in enumerate(progs):
-            jobs.append({'id': '%s/%d' % (name, n), 'prog': p, 'sites': sites_fn(p, rng)})
+            jobs.append({'id': '%s/%d' % (name, n), 'prog': p, 'sites': sites_fn(p, rng), 'route': 'builder' if name.endswith('-builder') else 'text'})
             if 'edge' in variants and n % 3 == 0:
                 for m, q in enumerate(edge_variants(p, rng)):
-                    jobs.append({'id': '%s/%d/edge%d' % (name, n, m), 'prog': q, 'sites': sites_fn(q, rng)})
+                    jobs.append({'id': '%s/%d/edge%d' % (name, n, m), 'prog': q, 'sites': sites_fn(q, rng),
+                                 'route': 'builder' if name.endswith('-builder') else 'text'})
             if 'macros_last' in variants:
                 names = {m['v'] for m in p['macros']}
                 if p['macros'] and not any(("'v': '%s'" % nm) in repr(p['body']) for nm in names):
